@@ -13,6 +13,7 @@
 #include <tuple>
 #include <vector>
 #include <string>
+#include <memory>
 #include <frg/optional.hpp>
 #include <frg/variant.hpp>
 #include <frg/expected.hpp>
@@ -444,6 +445,91 @@ void run_tuple(Ctx &c) {
 	c.nontrivial = which >= 2 || which == 0;
 }
 
+// ------------------------------------------------------------------------------------------
+// Value-holder batteries over element types the histories above do not use.
+struct Big { uint64_t w[4]; };
+struct alignas(32) Wide { unsigned char b[32]; };
+struct ChainNode;
+using ChainLink = frg::expected<Err, ChainNode>;
+struct ChainNode {
+	Tracked t;
+	std::unique_ptr<ChainLink> next;
+	ChainNode(int v) : t(v) {}
+	ChainNode(ChainNode &&) = default;
+	ChainNode &operator=(ChainNode &&) = default;
+};
+
+void run_extra(Ctx &c) {
+	auto &t = c.t;
+	unsigned which = t.pick(4);
+	int a = 1 + (int)t.pick(6), b = 1 + (int)t.pick(100), d = (int)t.pick(100);
+	c.op("extra battery %u with (%d,%d,%d)", which, a, b, d);
+	c.tagf("extra-%u", which);
+	switch(which) {
+	case 0: {   // manual_box::initialize(args...) constructs T(args...) like std::optional::emplace
+		using VB = frg::manual_box<std::vector<int>>;
+		VB *box = c.make<VB>();
+		box->initialize((size_t)a, b);
+		std::optional<std::vector<int>> ref; ref.emplace((size_t)a, b);
+		VCHECK(c, "C17", **box == *ref, "manual_box<vector<int>>::initialize(%d, %d) holds %zu elements (first %d), std::optional::emplace holds %zu", a, b, (*box)->size(), (*box)->empty() ? -1 : (**box)[0], ref->size());
+		box->destruct();
+		box->construct_with([&] { return std::vector<int>((size_t)a, d); });
+		VCHECK(c, "C17", **box == std::vector<int>((size_t)a, d), "manual_box::construct_with holds another value");
+		box->destruct();
+		using PB = frg::manual_box<std::pair<int, long>>;
+		PB *pb = c.make<PB>(); pb->initialize(a, (long)b);
+		VCHECK(c, "C17", (*pb)->first == a && (*pb)->second == b, "manual_box<pair>::initialize");
+		pb->destruct();
+		break; }
+	case 1: {   // alternatives whose sizes are not in ascending order; neighbours must stay intact
+		using V2 = frg::variant<uint64_t, char, Big>;
+		VCHECK(c, "C17", sizeof(V2) >= sizeof(Big) + sizeof(size_t) && alignof(V2) >= alignof(Big), "variant<uint64_t,char,Big> is %zu bytes (alignment %zu): too small for its largest alternative (%zu)", sizeof(V2), alignof(V2), sizeof(Big));
+		V2 *arr = (V2 *)malloc(3 * sizeof(V2)); c.arena.push_back({arr, nullptr});      // exact size: ASan redzone behind the last one
+		for(int i = 0; i < 3; i++) new (&arr[i]) V2();
+		Big big{{(uint64_t)a, (uint64_t)b, (uint64_t)d, 0xFEEDFACEull}};
+		arr[0] = uint64_t(a); arr[1] = char('x'); arr[2] = big;
+		arr[1] = big; arr[0] = big;
+		arr[1].get<Big>().w[3] = 77;
+		VCHECK(c, "C17", arr[0].is<Big>() && arr[0].get<Big>().w[0] == (uint64_t)a && arr[0].get<Big>().w[3] == 0xFEEDFACEull, "variant[0] lost its Big value after its neighbour was assigned");
+		VCHECK(c, "C17", arr[1].is<Big>() && arr[1].get<Big>().w[3] == 77 && arr[1].get<Big>().w[1] == (uint64_t)b, "variant[1] holds a damaged Big value");
+		VCHECK(c, "C17", arr[2].is<Big>() && arr[2].get<Big>().w[2] == (uint64_t)d && arr[2].get<Big>().w[3] == 0xFEEDFACEull, "variant[2] lost its Big value");
+		arr[0] = char('y');
+		VCHECK(c, "C17", arr[0].is<char>() && arr[0].get<char>() == 'y' && arr[1].is<Big>() && arr[1].get<Big>().w[0] == (uint64_t)a, "assigning variant[0] changed variant[1]");
+		for(int i = 0; i < 3; i++) arr[i].~V2();
+		using V3 = frg::variant<double, char, Wide>;
+		V3 *w = (V3 *)aligned_alloc(alignof(V3) < 32 ? 32 : alignof(V3), (sizeof(V3) + 31) / 32 * 32); c.arena.push_back({w, nullptr});
+		new (w) V3(Wide{});
+		VCHECK(c, "C17", alignof(V3) >= 32 && ((uintptr_t)&w->get<Wide>() % 32) == 0, "variant<double,char,Wide> returns its alignas(32) alternative at a misaligned address (alignof %zu)", alignof(V3));
+		w->~V3();
+		break; }
+	case 2: {   // assignment from an object owned by the destination's current value
+		ChainLink *cur = c.make<ChainLink>(ChainNode(a));
+		cur->value().next = std::make_unique<ChainLink>(ChainNode(b));
+		cur->value().next->value().next = std::make_unique<ChainLink>(ChainNode(d));
+		*cur = std::move(*cur->value().next);
+		VCHECK(c, "C17", (bool)*cur && cur->value().t.get() == b, "expected = move(nested expected owned by its own value): holds %d, expected %d", *cur ? cur->value().t.v : -1, b);
+		VCHECK(c, "C17", cur->value().next && (bool)*cur->value().next && cur->value().next->value().t.get() == d, "the rest of the chain was lost");
+		*cur = std::move(*cur->value().next);
+		VCHECK(c, "C17", (bool)*cur && cur->value().t.get() == d && !cur->value().next, "second step of the chain");
+		c.destroy(cur);
+		break; }
+	default: {  // optional / variant of a type that owns heap memory (std::string stands in for any resource owner)
+		frg::optional<std::string> *o = c.make<frg::optional<std::string>>(std::string((size_t)a * 20, 'q'));
+		frg::optional<std::string> *o2 = c.make<frg::optional<std::string>>(*o);
+		*o = frg::null_opt; *o = *o2; *o2 = std::move(*o);
+		VCHECK(c, "C17", *o2 && **o2 == std::string((size_t)a * 20, 'q'), "optional<string> round trip");
+		using VS = frg::variant<int, std::string>;
+		VS *v = c.make<VS>(std::string((size_t)b, 'z')); VS *v2 = c.make<VS>(*v);
+		*v = 5; *v = *v2; *v2 = VS{};
+		VCHECK(c, "C17", v->is<std::string>() && v->get<std::string>() == std::string((size_t)b, 'z') && !*v2, "variant<int,string> round trip");
+		c.destroy(v2); c.destroy(v); c.destroy(o2); c.destroy(o);
+		break; }
+	}
+	c.check_san("C17");
+	VTRACK_END(c);
+	c.nontrivial = true;
+}
+
 } // namespace
 
 void verif_case(Ctx &c) {
@@ -458,9 +544,10 @@ void verif_case(Ctx &c) {
 		else { dst &= 1; src &= 1; if(ty & 1) ExpRunner<Tracked>{c}.pair_case(dst, src, op); else ExpRunner<int>{c}.pair_case(dst, src, op); }
 		return;
 	}
-	unsigned kind = t.pick(10);
+	unsigned kind = t.pick(11);
 	c.tagf("kind-%u", kind);
 	switch(kind) {
+	case 10: run_extra(c); return;
 	case 0: OptRunner<int>{c}.history(); break;
 	case 1: OptRunner<Tracked>{c}.history(); break;
 	case 2: OptRunner<TrackedMO>{c}.history(); break;
@@ -487,4 +574,7 @@ void verif_enum(Enum &e) {
 	n = 0;
 	for(uint32_t w = 0; w < 6; w++) { if(!e.run({1, 9, 1, 2, 3, 4, 5, 6, w})) return; n++; }
 	e.scope("tuple batteries", n);
+	n = 0;
+	for(uint32_t w = 0; w < 4; w++) { if(!e.run({1, 10, w, 2, 7, 9})) return; n++; }
+	e.scope("extra value-holder batteries", n);
 }
